@@ -24,6 +24,7 @@ pub mod mpsc {
             chans_created(*old(w)) == READY ==> *final(w) == (World { ready: fresh_chan(buffer as int), ..*old(w) }),
             chans_created(*old(w)) == DONE ==> *final(w) == (World { done: fresh_chan(buffer as int), ..*old(w) }),
             chans_created(*old(w)) != READY && chans_created(*old(w)) != DONE ==> *final(w) == *old(w),
+            keeps(*old(w), *final(w)) && trace(*final(w)) == trace(*old(w)),
     { unimplemented!() }
 }
 
